@@ -59,8 +59,9 @@ Theorem C31_core_covers_positions : forall cks L set t,
 Proof. exact touches_hit. Qed.
 Print Assumptions C31_core_covers_positions.
 
-(** Plain (not proxied) submissions: every enforcement point rejects; error
-    receipts only; never packed; the delay entry for single transactions. *)
+(** Plain (not proxied) submissions, single transactions and groups alike:
+    every enforcement point rejects; error receipts only; never packed; both
+    delay entry points refuse (a group is expanded and every member checked). *)
 Theorem C31_blocked_position_rejected : forall cks L set e b,
   parse_list cks L = Some set -> (e_h e <> 0)%Z -> plain e b = true ->
   touches cks L e b = true ->
@@ -70,19 +71,20 @@ Theorem C31_blocked_position_rejected : forall cks L set e b,
      (forall bs, ~ In b (prod_out cks set e bs))) /\
   pool_rejects cks set b = true /\
   (forall base, pool_reply cks set b base <> ROk) /\
-  (is_single b = true -> delay_rejects cks set b = true).
+  delay_rejects cks set b = true /\
+  (forall base, delay_reply cks set b base = RBlocked).
 Proof. exact position_plain. Qed.
 Print Assumptions C31_blocked_position_rejected.
 
-(** Full strength (proxied and delayed-group submissions included) fails. *)
+(** Full strength (proxied submissions included) fails. *)
 Theorem C31_blocked_position_rejected_refuted : ~ C31_blocked_position_rejected_full.
 Proof. exact position_full_refuted. Qed.
 Print Assumptions C31_blocked_position_rejected_refuted.
 
 (** Strongest statement for all submissions: every enforcement point rejects
     what it looks at (executor: the unwrapped inner transaction of a proxied
-    one, all members of a group; producer and pool: the outer transaction, all
-    members; delay entry points: the transaction itself / the group head). *)
+    one, all members of a group; producer, pool and delay entry points: the
+    outer transaction, all members). *)
 Theorem C31_blocked_position_rejected_partial : forall cks L set e b,
   parse_list cks L = Some set ->
   ((e_h e <> 0)%Z -> active e = true -> exec_view_touches cks L e b = true ->
@@ -92,7 +94,7 @@ Theorem C31_blocked_position_rejected_partial : forall cks L set e b,
      prod_rejects cks set e b = true /\ forall bs, ~ In b (prod_out cks set e bs)) /\
   (outer_touches cks L b = true ->
      pool_rejects cks set b = true /\ forall base, pool_reply cks set b base <> ROk) /\
-  (head_touches cks L b = true ->
+  (outer_touches cks L b = true ->
      delay_rejects cks set b = true /\ forall base, delay_reply cks set b base = RBlocked).
 Proof. exact position_views. Qed.
 Print Assumptions C31_blocked_position_rejected_partial.
@@ -106,14 +108,17 @@ Print Assumptions C31_pool_rejects_at_every_height_refuted.
 Theorem C31_pool_rejects_at_every_height_partial : forall cks L set (e : env) b,
   parse_list cks L = Some set -> outer_touches cks L b = true ->
   pool_rejects cks set b = true /\ (forall base, pool_reply cks set b base <> ROk) /\
-  (head_touches cks L b = true -> delay_rejects cks set b = true).
+  delay_rejects cks set b = true.
 Proof. exact pool_every_height. Qed.
 Print Assumptions C31_pool_rejects_at_every_height_partial.
 
-(** Delayed groups: only the head is looked at. *)
-Theorem C31_delay_group_refuted : ~ C31_delay_rejects_full.
-Proof. exact delay_full_refuted. Qed.
-Print Assumptions C31_delay_group_refuted.
+(** Delay entry points (eventAddDelayTx, addDelayTx): the blacklist verdict is
+    the pool's per-member check over the submission itself and every member of
+    its group - exactly what the pool looks at when the cache releases it. *)
+Theorem C31_delay_entry_all_members : forall cks set b,
+  delay_rejects cks set b = chk_txs_imm cks set (members b).
+Proof. exact delay_entry_all_members. Qed.
+Print Assumptions C31_delay_entry_all_members.
 
 (** Proxied transactions: the executor does not look at the outer transaction. *)
 Theorem C31_executor_outer_refuted : ~ C31_executor_rejects_full.
@@ -149,12 +154,14 @@ Proof. exact rejection_sound. Qed.
 Print Assumptions C31_rejection_sound.
 
 (** Witness facts used by the refutations: before the activation height the
-    proxied payment to a listed account passes pool, producer and executor. *)
+    proxied payment to a listed account passes pool, producer and executor,
+    and the delay entry at every height. *)
 Theorem C31_proxy_inner_before_fork_witness :
   touches nock wL env9 w_proxy_inner = true /\
   pool_rejects nock wset w_proxy_inner = false /\
   prod_rejects nock wset env9 w_proxy_inner = false /\
-  exec_receipts nock wset env9 w_proxy_inner [2] = [2].
+  exec_receipts nock wset env9 w_proxy_inner [2] = [2] /\
+  delay_rejects nock wset w_proxy_inner = false.
 Proof. exact proxy_inner_before_fork. Qed.
 Print Assumptions C31_proxy_inner_before_fork_witness.
 
@@ -196,7 +203,7 @@ Theorem C31_history_blocked_rejected : forall cks st pre L set asks e b,
        a_prod a = true /\ (forall base r, In r (a_exec a base) -> r = 0) /\ a_txs a = true) /\
     a_txsimm a = true /\
     (forall base, a_pool a base <> ROk) /\
-    (is_single b = true -> forall base, a_delay a base = RBlocked).
+    (forall base, a_delay a base = RBlocked).
 Proof. exact history_blocked. Qed.
 Print Assumptions C31_history_blocked_rejected.
 
